@@ -40,8 +40,8 @@ type c11Op struct {
 	I   int               `json:"i,omitempty"` // issuer index
 	C   uint32            `json:"c,omitempty"` // credential / list selector (modulo)
 	N   int               `json:"n,omitempty"` // count or variant
-	M   string            `json:"m,omitempty"` // mode (issue: format; verifyB: NET mode to set for the credential's list first)
-	A   string            `json:"a,omitempty"` // verifyB: age the verifier's record first ("old" | "expired")
+	M   string            `json:"m,omitempty"` // mode (issue: format; verifyB: NET mode to set for the credential's list first; race: outer op)
+	A   string            `json:"a,omitempty"` // verifyB: age the verifier's record first ("old" | "expired"); race: inner op
 	L   bool              `json:"l,omitempty"` // revoke / verify: take the most recently issued credential instead of C
 	S   bool              `json:"s,omitempty"` // jsonmut: mutate inside credentialSubject only
 	Mut *jsonmut.Mutation `json:"mut,omitempty"`
@@ -62,7 +62,7 @@ func c11Gen(t *rapid.T) c11Case {
 		c.Ops = append(c.Ops, c11Op{K: "issue", I: rapid.IntRange(0, c.Issuers-1).Draw(t, "i"), M: rapid.SampledFrom([]string{"ldp", "ldp", "jwt"}).Draw(t, "fmt")})
 	}
 	kinds := []string{"issue", "issue", "issue", "entry", "jump", "revoke", "revoke", "revoke", "revoke", "serve", "serve",
-		"verifyA", "verifyA", "verifyB", "verifyB", "verifyB", "verifyB", "verifyB", "verifyB", "ageIssuer", "issueForged", "sc-forged-refresh", "sc-rollover", "fillpages"}
+		"verifyA", "verifyA", "verifyB", "verifyB", "verifyB", "verifyB", "verifyB", "verifyB", "ageIssuer", "issueForged", "sc-forged-refresh", "sc-rollover", "fillpages", "race", "race", "race"}
 	forged := []string{"http500", "neterr", "notjson", "unsigned", "zerobits", "zerobits", "allbits", "wrongsubject", "jsonmut"}
 	mut := func(t *rapid.T, op *c11Op) {
 		if op.M == "jsonmut" {
@@ -101,6 +101,12 @@ func c11Gen(t *rapid.T) c11Case {
 		case "fillpages":
 			op.I = rapid.IntRange(0, c.Issuers-1).Draw(t, "i")
 			op.N = rapid.SampledFrom([]int{1, 2, 3, 9, 10, 11}).Draw(t, "pages") // page numbers with two digits included
+		case "race":
+			// harness-owned interleaving: the inner op runs to completion at the outer op's pre-transaction callback
+			op.C = rapid.Uint32().Draw(t, "c")
+			op.M = rapid.SampledFrom([]string{"serve", "serve", "serve", "revoke", "entry"}).Draw(t, "outer")
+			op.A = rapid.SampledFrom([]string{"revoke", "revoke", "revoke", "serve", "entry", "issue"}).Draw(t, "inner")
+			op.N = rapid.SampledFrom([]int{0, 1, 1, 1, 2, 2}).Draw(t, "age") // 0: list not due for renewal, 1: in its renewal window, 2: expired
 		case "revoke", "verifyA":
 			op.C = rapid.Uint32().Draw(t, "c")
 		case "verifyB":
@@ -544,6 +550,12 @@ func (r *c11Run) opRevoke(op c11Op) bool {
 	if c == nil {
 		return false
 	}
+	return r.doRevoke(c)
+}
+
+// doRevoke revokes c through the issuer. The expectation is evaluated after the call returned, because an armed hook may
+// have revoked the same credential while the call was between its checks and its transaction.
+func (r *c11Run) doRevoke(c *c11Cred) bool {
 	_, err := r.f.iss.Revoke(r.f.ctx, *c.vc.ID)
 	if !c.revocable {
 		if err == nil {
@@ -570,6 +582,89 @@ func (r *c11Run) opRevoke(op c11Op) bool {
 		r.x.Class("revoke:on-later-page")
 	}
 	return true
+}
+
+// serveList fetches (issuer, page) like GET /statuslist/{did}/{page} and applies the served-list oracles.
+func (r *c11Run) serveList(l *c11List, how string) {
+	t0 := time.Now()
+	cred, err := r.f.iss.StatusList(r.f.ctx, r.f.dids[l.issuer], l.page)
+	if err != nil {
+		r.x.Violate("serve-error", "StatusList(%d, page %d) [%s]: %v", l.issuer, l.page, how, err)
+		return
+	}
+	r.checkList(cred, l.url, l.issuer, t0, how)
+}
+
+// ageIssuerRecord replaces the issuer node's stored list for l by a validly signed one with the current content that
+// expires at exp (as if it had been signed statusListValidity before exp).
+func (r *c11Run) ageIssuerRecord(l *c11List, exp time.Time) {
+	cred, err := r.f.signList(l.issuer, l.url, revocation.StatusPurposeRevocation, r.truthBits(l.url), exp.Add(-revocation.C11StatusListValidity), exp)
+	r.x.NoErr(err, "sign aged list")
+	raw, _ := json.Marshal(cred)
+	res := r.f.dbA.Exec("UPDATE status_list_credential SET raw = ?, expires = ?, created_at = ? WHERE subject_id = ?", string(raw), exp.Unix(), exp.Add(-revocation.C11StatusListValidity).Unix(), l.url)
+	if res.Error != nil || res.RowsAffected != 1 {
+		r.x.Fatalf("ageIssuer: %v rows=%d", res.Error, res.RowsAffected)
+	}
+}
+
+// opRace is the harness-owned interleaving for the window between an operation's preliminary reads and its transaction:
+// the OUTER op (serve = GET of the list, revoke, entry) is started and, when it calls back to resolve the signing key
+// (after its reads, before its transaction), the INNER op (revoke / serve / entry / issue) runs to completion, as a
+// concurrent API call whose transaction commits at that moment would. For serve, the stored list is first aged into its
+// renewal window (or past expiry), otherwise Credential() returns the stored list without any window. Afterwards the
+// list is served again and the credential is verified on the issuer's node and (after a due refresh) remotely: all the
+// usual oracles apply (bits = revocations reported successful, never a cleared bit, verify <=> revoked, fresh slots).
+func (r *c11Run) opRace(op c11Op) bool {
+	x := r.x
+	c := r.pickCred(op.C, func(c *c11Cred) bool { return c.revocable })
+	if c == nil {
+		return false
+	}
+	l := r.lists[c.url]
+	if op.N > 0 {
+		exp := time.Now().Add(revocation.C11MinTimeUntilExpired - 2*time.Minute)
+		if op.N == 2 {
+			exp = time.Now().Add(-time.Hour)
+		}
+		r.ageIssuerRecord(l, exp)
+	}
+	revoked := false
+	run := func(kind, role string) {
+		switch kind {
+		case "serve":
+			r.serveList(l, "race-"+role)
+		case "revoke":
+			if r.doRevoke(c) {
+				revoked = true
+			}
+		case "entry":
+			r.opEntry(c11Op{K: "entry", I: l.issuer, N: 1})
+		case "issue":
+			r.opIssue(c11Op{K: "issue", I: l.issuer, M: "ldp"})
+		}
+	}
+	fired := false
+	r.f.armHook(func() {
+		fired = true
+		run(op.A, "inner")
+	})
+	run(op.M, "outer")
+	r.f.armHook(nil)
+	x.Classf("race:%s<-%s:age=%d:fired=%v", op.M, op.A, op.N, fired)
+	if len(x.Violations()) > 0 {
+		return revoked
+	}
+	// what everybody sees afterwards
+	r.serveList(l, "after-race")
+	for i, o := range r.creds {
+		if o == c {
+			r.opVerifyA(c11Op{K: "verifyA", C: uint32(i)})
+			if len(x.Violations()) == 0 {
+				r.opVerifyB(c11Op{K: "verifyB", C: uint32(i), M: "honest", A: "old"})
+			}
+		}
+	}
+	return revoked || l.bits[c.idx]
 }
 
 // checkList applies the served-list oracles to a list the issuer node handed out for url. t0 is a time before the call.
@@ -904,13 +999,7 @@ func (r *c11Run) opAgeIssuer(op c11Op) {
 	if op.M == "past" {
 		exp = now.Add(-time.Hour)
 	}
-	cred, err := r.f.signList(l.issuer, url, revocation.StatusPurposeRevocation, r.truthBits(url), exp.Add(-revocation.C11StatusListValidity), exp)
-	r.x.NoErr(err, "sign aged list")
-	raw, _ := json.Marshal(cred)
-	res := r.f.dbA.Exec("UPDATE status_list_credential SET raw = ?, expires = ?, created_at = ? WHERE subject_id = ?", string(raw), exp.Unix(), exp.Add(-revocation.C11StatusListValidity).Unix(), url)
-	if res.Error != nil || res.RowsAffected != 1 {
-		r.x.Fatalf("ageIssuer: %v rows=%d", res.Error, res.RowsAffected)
-	}
+	r.ageIssuerRecord(l, exp)
 	r.x.Class("ageIssuer:" + op.M)
 }
 
@@ -966,6 +1055,11 @@ func c11RunCase(t *testing.T) func(x *h.Ctx, c c11Case) {
 				r.opJump(op)
 			case "fillpages":
 				r.opFillPages(op)
+			case "race":
+				if r.opRace(op) {
+					revoked = true
+					x.NonTrivial()
+				}
 			case "revoke":
 				if r.opRevoke(op) {
 					revoked = true
